@@ -184,6 +184,7 @@ import DtsVerif.Model.TimeCoords
 import DtsVerif.Model.Guards
 import DtsVerif.Model.Shift
 import DtsVerif.Props.ObsSpec
+import DtsVerif.Model.Design
 import Mathlib.Tactic.Ring
 import Mathlib.Tactic.FieldSimp
 /-! GENERATED by harness/translate.py from the current dts_accessor.py — do not edit. -/
@@ -986,6 +987,330 @@ def translate_shift(src_root):
     return "\n".join(L) + "\n"
 
 
+# ================================================================================================ design matrices (COO index vectors)
+_DESIGN_SCALARS = {"nt": "nt", "nx": "nx", "nm": "nm", "nta": "nta", "ix_sec_ta_ix0": "ix0"}
+
+
+class _Design:
+    """sequential walk over a solver function: keeps the latest assignment of every name and records every
+    `sp.coo_matrix((data, (row, col)), shape=...)` together with the name it is bound to (or the list it is appended to)"""
+
+    def __init__(self, fn, where, stop_at=None):
+        self.where = where
+        self.env = {}
+        self.coo = []          # (target, data, row, col, shape) as ast nodes resolved at the point of the call
+        self.ifs = []          # the `if trans > x[-1] ... elif ... else` chains that assign ix_sec_ta_ix0
+        self.stmts = {}        # unparsed text of selected single statements (stacking)
+        self._walk(fn.body, stop_at)
+
+    def _resolve(self, n):
+        """substitute names by their latest assignment, except the scalar atoms"""
+        if isinstance(n, ast.Name) and n.id not in _DESIGN_SCALARS and n.id not in ("cal_ref", "x_sec", "ds_ms0", "ds_ms1") and n.id in self.env:
+            return self._resolve(self.env[n.id])
+        if isinstance(n, ast.Name):
+            return n
+        out = type(n)(**{f: getattr(n, f) for f in n._fields})
+        for f in n._fields:
+            v = getattr(n, f)
+            if isinstance(v, ast.AST):
+                setattr(out, f, self._resolve(v))
+            elif isinstance(v, list):
+                setattr(out, f, [self._resolve(x) if isinstance(x, ast.AST) else x for x in v])
+        return out
+
+    def _coo_of(self, call, target):
+        if not (isinstance(call, ast.Call) and ast.unparse(call.func) == "sp.coo_matrix" and call.args):
+            return False
+        a0 = call.args[0]
+        if not (isinstance(a0, ast.Tuple) and len(a0.elts) == 2 and isinstance(a0.elts[1], ast.Tuple) and len(a0.elts[1].elts) == 2):
+            return False
+        data, (row, col) = a0.elts[0], a0.elts[1].elts
+        shape = next((k.value for k in call.keywords if k.arg == "shape"), None)
+        if isinstance(data, ast.List) and not data.elts:
+            return True          # an explicitly empty block
+        self.coo.append((target, self._resolve(data), self._resolve(row), self._resolve(col), self._resolve(shape) if shape is not None else None))
+        return True
+
+    def _walk(self, body, stop_at):
+        for st in body:
+            if stop_at is not None and isinstance(st, ast.If) and stop_at in ast.unparse(st.test).replace("'", '"'):
+                return
+            if isinstance(st, ast.Assign) and len(st.targets) == 1 and isinstance(st.targets[0], ast.Name):
+                name = st.targets[0].id
+                if not self._coo_of(st.value, name):
+                    self.env[name] = st.value
+                if name in ("X", "X_TA", "X_m", "Z_TA_fw", "Z_TA_bw", "y", "cal_ref") and name not in self.stmts:
+                    self.stmts[name] = ast.unparse(st).replace("'", '"')
+            elif isinstance(st, ast.Expr) and isinstance(st.value, ast.Call) and isinstance(st.value.func, ast.Attribute) \
+                    and st.value.func.attr == "append" and st.value.args:
+                self._coo_of(st.value.args[0], ast.unparse(st.value.func.value))
+            elif isinstance(st, ast.If):
+                if any(isinstance(x, ast.Assign) and ast.unparse(x.targets[0]) == "ix_sec_ta_ix0" for x in st.body):
+                    self.ifs.append(st)
+                    continue
+                self._walk(st.body, stop_at)
+                self._walk(st.orelse, stop_at)
+            elif isinstance(st, ast.For):
+                self._walk(st.body, stop_at)
+
+
+def _dz_scalar(n, where):
+    if isinstance(n, ast.Name) and n.id in _DESIGN_SCALARS:
+        return _DESIGN_SCALARS[n.id]
+    if isinstance(n, ast.Constant) and isinstance(n.value, int) and n.value >= 0:
+        return str(n.value)
+    if isinstance(n, ast.BinOp) and isinstance(n.op, (ast.Mult, ast.Sub, ast.Add)):
+        op = {ast.Mult: "*", ast.Sub: "-", ast.Add: "+"}[type(n.op)]
+        return f"({_dz_scalar(n.left, where)} {op} {_dz_scalar(n.right, where)})"
+    raise Untranslatable(f"{where}: size expression outside the fragment: {ast.unparse(n)[:70]}")
+
+
+def _dz_array(n, where, atoms=None):
+    """an index vector built with arange / zeros / ones / tile / repeat / +, as a Lean `List Nat` expression over `Py`"""
+    atoms = atoms or {}
+    k = ast.unparse(n).replace("'", '"')
+    if k in atoms:
+        return atoms[k]
+    if isinstance(n, ast.Call):
+        f = ast.unparse(n.func)
+        kw = {x.arg: x.value for x in n.keywords if x.arg != "dtype"}
+        if f == "np.arange":
+            if "step" in kw and len(n.args) == 1 and len(kw) == 1:
+                return f"(arangeStep {_dz_scalar(n.args[0], where)} {_dz_scalar(kw['step'], where)})"
+            if kw:
+                raise Untranslatable(f"{where}: np.arange with {sorted(kw)}")
+            if len(n.args) == 1:
+                return f"(arange 0 {_dz_scalar(n.args[0], where)})"
+            if len(n.args) == 2:
+                return f"(arange {_dz_scalar(n.args[0], where)} {_dz_scalar(n.args[1], where)})"
+        if f in ("np.zeros", "np.ones") and len(n.args) == 1 and not kw:
+            return f"(constL {_dz_scalar(n.args[0], where)} {0 if f == 'np.zeros' else 1})"
+        if f in ("np.tile", "np.repeat") and len(n.args) == 2 and not kw:
+            return f"({'tile' if f == 'np.tile' else 'repeatEach'} {_dz_array(n.args[0], where, atoms)} {_dz_scalar(n.args[1], where)})"
+    if isinstance(n, ast.BinOp) and isinstance(n.op, ast.Add):
+        return f"(addL {_dz_array(n.left, where, atoms)} {_dz_array(n.right, where, atoms)})"
+    raise Untranslatable(f"{where}: index expression outside the fragment: {k[:90]}")
+
+
+def _dz_const_data(n, where):
+    """`np.ones(n)` / `-np.ones(n)` as the pair (count, value)"""
+    sign = 1
+    if isinstance(n, ast.UnaryOp) and isinstance(n.op, ast.USub):
+        sign, n = -1, n.operand
+    if isinstance(n, ast.Call) and ast.unparse(n.func) == "np.ones" and len(n.args) == 1:
+        return f"({_dz_scalar(n.args[0], where)}, ({sign} : Int))"
+    raise Untranslatable(f"{where}: data vector outside the fragment: {ast.unparse(n)[:70]}")
+
+
+def _dz_shape(n, where):
+    if not (isinstance(n, ast.Tuple) and len(n.elts) == 2):
+        raise Untranslatable(f"{where}: shape is not a pair")
+    return f"({_dz_scalar(n.elts[0], where)}, {_dz_scalar(n.elts[1], where)})"
+
+
+def _dz_ix0(chain, xs_name, where):
+    """the three-way rule `if s > xs[-1]: ix0 = nx / elif s <= xs[0]: ix0 = 0 / else: ix0 = np.flatnonzero(xs >= s)[0]`"""
+    cmpop = {ast.Gt: ">", ast.GtE: "≥", ast.Lt: "<", ast.LtE: "≤"}
+
+    def test(t, which):
+        if not (isinstance(t, ast.Compare) and len(t.ops) == 1 and type(t.ops[0]) in cmpop and isinstance(t.left, ast.Name)):
+            raise Untranslatable(f"{where}: splice test `{ast.unparse(t)}`")
+        rhs = ast.unparse(t.comparators[0])
+        want = f"{xs_name}[-1]" if which == "last" else f"{xs_name}[0]"
+        if rhs != want:
+            raise Untranslatable(f"{where}: splice test compares with `{rhs}`, expected `{want}`")
+        elem = "xs.getD (xs.size - 1) 0" if which == "last" else "xs.getD 0 0"
+        return t.left.id, f"s {cmpop[type(t.ops[0])]} {elem}"
+
+    def assigned(body):
+        if not (len(body) == 1 and isinstance(body[0], ast.Assign) and ast.unparse(body[0].targets[0]) == "ix_sec_ta_ix0"):
+            raise Untranslatable(f"{where}: branch of the splice rule does more than assign ix_sec_ta_ix0")
+        return body[0].value
+
+    s1, t1 = test(chain.test, "last")
+    v1 = ast.unparse(assigned(chain.body))
+    if v1 not in ("nx", f"{xs_name}.size"):
+        raise Untranslatable(f"{where}: first branch assigns `{v1}`")
+    if not (len(chain.orelse) == 1 and isinstance(chain.orelse[0], ast.If)):
+        raise Untranslatable(f"{where}: splice rule is not a three-way chain")
+    c2 = chain.orelse[0]
+    s2, t2 = test(c2.test, "first")
+    v2 = assigned(c2.body)
+    if not (isinstance(v2, ast.Constant) and v2.value == 0):
+        raise Untranslatable(f"{where}: second branch assigns `{ast.unparse(v2)}`")
+    v3 = assigned(c2.orelse)
+    if not (isinstance(v3, ast.Subscript) and ast.unparse(v3.slice) == "0" and isinstance(v3.value, ast.Call)
+            and ast.unparse(v3.value.func) == "np.flatnonzero" and len(v3.value.args) == 1 and isinstance(v3.value.args[0], ast.Compare)):
+        raise Untranslatable(f"{where}: third branch is `{ast.unparse(v3)}`")
+    c3 = v3.value.args[0]
+    if not (ast.unparse(c3.left) == xs_name and len(c3.ops) == 1 and type(c3.ops[0]) in cmpop and ast.unparse(c3.comparators[0]) == s1 == s2):
+        raise Untranslatable(f"{where}: third branch tests `{ast.unparse(c3)}`")
+    return (f"  if {t1} then xs.size\n  else if {t2} then 0\n"
+            f"  else ((List.range xs.size).find? (fun k => xs.getD k 0 {cmpop[type(c3.ops[0])]} s)).getD xs.size")
+
+
+def translate_design(src_root, which=("single", "double")):
+    """the COO index vectors (`np.arange / tile / repeat`), constant data vectors, shapes, the splice rule and the stacking order of
+    `calibration_single_ended_solver` and `construct_submatrices`, emitted as Lean and proved to be `Model/Design.lean` (whose entries
+    `Props/Design.lean` proves, for every size, to be the model's rows)"""
+    tree = ast.parse((Path(src_root) / "dtscalibration" / "calibrate_utils.py").read_text())
+    fns = {n.name: n for n in ast.walk(tree) if isinstance(n, ast.FunctionDef)}
+    L = ["\nnamespace DtsVerif.GenDesign\nopen DtsVerif.Py DtsVerif.Design\n"]
+    info = {}
+
+    def emit(name, params, ty, expr, model):
+        args = " ".join(p.strip("(){}").split(":")[0].strip() for p in params)
+        L.append(f"def {name} {' '.join(params)} : {ty} := {expr}")
+        L.append(f"theorem {name}_eq {' '.join(params)} : {name} {args} = {model} {args} := rfl")
+
+    def block(D, target, nth=0):
+        hits = [c for c in D.coo if c[0] == target]
+        if len(hits) <= nth:
+            raise Untranslatable(f"{D.where}: sp.coo_matrix for `{target}` not found")
+        return hits[nth]
+
+    if "single" in which:
+        w = "calibration_single_ended_solver"
+        if w not in fns:
+            raise Untranslatable(f"{w} not found")
+        D = _Design(fns[w], w, stop_at='solver == "external_split"')
+        for need, text in (("X", "X = sp.vstack((sp.hstack((X_gamma, X_dalpha, X_c, X_TA)), X_m))"), ("X_TA", "X_TA = sp.hstack(TA_list)"),
+                           ("X_m", "X_m = sp.hstack((X_ma, X_mt))"), ("y", "y = np.log(ds_sec.st / ds_sec.ast).values.T.ravel()")):
+            if D.stmts.get(need) != text:
+                raise Untranslatable(f"{w}: `{text}` is now `{D.stmts.get(need)}`")
+        for k, v in (("nx", "x_sec.size"), ("nt", "ds.time.size"), ("nta", "len(trans_att)"),
+                     ("nm", "matching_indices.shape[0] if np.any(matching_indices) else 0"), ("x_sec", 'ds_sec["x"].values')):
+            if ast.unparse(D.env.get(k, ast.Constant(None))).replace("'", '"') != v:
+                raise Untranslatable(f"{w}: `{k}` is no longer `{v}`")
+        P2, P3 = ["(nt nx : Nat)"], ["(nt nx ix0 : Nat)"]
+        _, data, row, col, shape = block(D, "X_gamma")
+        emit("sGammaRowG", P2, "List Nat", _dz_array(row, w), "sGammaRow")
+        emit("sGammaColG", P2, "List Nat", _dz_array(col, w), "sGammaCol")
+        emit("sGammaShapeG", P2, "Nat × Nat", _dz_shape(shape, w), "sGammaShape")
+        gsrc = ast.unparse(data)
+        if gsrc not in ("1 / (cal_ref.T.ravel() + 273.15)", "1 / (cal_ref.ravel() + 273.15)"):
+            raise Untranslatable(f"{w}: data_gamma is `{gsrc}`")
+        L.append(f"def sGammaTimeMajorG : Bool := {'true' if '.T.ravel()' in gsrc else 'false'}")
+        L.append("theorem sGammaTimeMajorG_eq : sGammaTimeMajorG = sGammaTimeMajor := rfl")
+        if 'ref_temp_broadcasted=True, calc_per="all"' not in D.stmts.get("cal_ref", ""):
+            raise Untranslatable(f"{w}: cal_ref is `{D.stmts.get('cal_ref')}`")
+        _, data, row, col, shape = block(D, "X_dalpha")
+        emit("sDalphaRowG", P2, "List Nat", _dz_array(row, w), "sDalphaRow")
+        emit("sDalphaColG", P2, "List Nat", _dz_array(col, w), "sDalphaCol")
+        emit("sDalphaShapeG", P2, "Nat × Nat", _dz_shape(shape, w), "sDalphaShape")
+        L.append(f"def sDalphaDataG {{α}} (negx : List α) (nt : Nat) : List α := {_dz_array(data, w, {'-x_sec': 'negx'})}")
+        L.append("theorem sDalphaDataG_eq {α} (negx : List α) (nt : Nat) : sDalphaDataG negx nt = sDalphaData negx nt := rfl")
+        _, data, row, col, shape = block(D, "X_c")
+        emit("sCRowG", P2, "List Nat", _dz_array(row, w), "sCRow")
+        emit("sCColG", P2, "List Nat", _dz_array(col, w), "sCCol")
+        emit("sCShapeG", P2, "Nat × Nat", _dz_shape(shape, w), "sCShape")
+        emit("sCDataG", P2, "Nat × Int", _dz_const_data(data, w), "sCData")
+        _, data, row, col, shape = block(D, "TA_list")
+        emit("sTaRowG", P3, "List Nat", _dz_array(row, w), "sTaRow")
+        emit("sTaColG", P3, "List Nat", _dz_array(col, w), "sTaCol")
+        emit("sTaDataG", P3, "Nat × Int", _dz_const_data(data, w), "sTaData")
+        emit("sTaShapeG", P2, "Nat × Nat", _dz_shape(shape, w), "sTaShape")
+        if len(D.ifs) != 1:
+            raise Untranslatable(f"{w}: {len(D.ifs)} splice rules found")
+        L.append(f"def sIx0G (xs : Array Rat) (s : Rat) : Nat :=\n{_dz_ix0(D.ifs[0], 'x_sec', w)}")
+        L.append("theorem sIx0G_eq (xs : Array Rat) (s : Rat) : sIx0G xs s = ix0Rule xs s := rfl")
+        PM = ["(nm nt : Nat)"]
+        _, data, row, col, shape = block(D, "X_ma")
+        emit("sMaRowG", PM, "List Nat", _dz_array(row, w), "sMaRow")
+        emit("sMaColG", PM, "List Nat", _dz_array(col, w), "sMaCol")
+        emit("sMaShapeG", PM, "Nat × Nat", _dz_shape(shape, w), "sMaShape")
+        L.append(f"def sMaDataG {{α}} (dx : List α) (nt : Nat) : List α := "
+                 f"{_dz_array(data, w, {'ds_ms1[\"x\"].values - ds_ms0[\"x\"].values': 'dx'})}")
+        L.append("theorem sMaDataG_eq {α} (dx : List α) (nt : Nat) : sMaDataG dx nt = sMaData dx nt := rfl")
+        for k, v in (("ds_ms0", "ds.isel(x=matching_indices[:, 0])"), ("ds_ms1", "ds.isel(x=matching_indices[:, 1])")):
+            if ast.unparse(D.env.get(k, ast.Constant(None))) != v:
+                raise Untranslatable(f"{w}: `{k}` is no longer `{v}`")
+        PT = ["(nm nt nta : Nat)"]
+        _, data, row, col, shape = block(D, "X_mt")
+        emit("sMtRowG", PT, "List Nat", _dz_array(row, w), "sMtRow")
+        emit("sMtColG", PT, "List Nat", _dz_array(col, w), "sMtCol")
+        emit("sMtShapeG", PT, "Nat × Nat", _dz_shape(shape, w), "sMtShape")
+        src = ast.unparse(fns[w]).replace("'", '"')
+        for piece in ("transient_m_data = np.zeros((nm, nta))", "for ii, row in enumerate(matching_indices):",
+                      "for jj, transient_att_xi in enumerate(trans_att):",
+                      "transient_m_data[ii, jj] = int(x_all[row[1]] >= transient_att_xi) - int(x_all[row[0]] >= transient_att_xi)",
+                      'data_mt = np.tile(transient_m_data, (nt, 1)).flatten("F")', "for transient_att_xi in trans_att:",
+                      'x_all = ds["x"].values'):
+            if piece not in src:
+                raise Untranslatable(f"{w}: `{piece}` is gone")
+        info["single"] = sorted(c[0] for c in D.coo)
+    if "double" in which:
+        w = "construct_submatrices"
+        if w not in fns:
+            raise Untranslatable(f"{w} not found")
+        D = _Design(fns[w], w)
+        for need, text in (("Z_TA_fw", "Z_TA_fw = sp.hstack(TA_fw_list)"), ("Z_TA_bw", "Z_TA_bw = sp.hstack(TA_bw_list)")):
+            if D.stmts.get(need) != text:
+                raise Untranslatable(f"{w}: `{text}` is now `{D.stmts.get(need)}`")
+        P2, P3, PB = ["(nt nx : Nat)"], ["(nt nx ix0 : Nat)"], ["(nt ix0 : Nat)"]
+        _, data, row, col, shape = block(D, "Z_gamma")
+        emit("dGammaRowG", P2, "List Nat", _dz_array(row, w), "dGammaRow")
+        emit("dGammaColG", P2, "List Nat", _dz_array(col, w), "dGammaCol")
+        emit("dGammaShapeG", P2, "Nat × Nat", _dz_shape(shape, w), "dGammaShape")
+        gsrc = ast.unparse(data)
+        if gsrc not in ("1 / (cal_ref.T.ravel() + 273.15)", "1 / (cal_ref.ravel() + 273.15)"):
+            raise Untranslatable(f"{w}: data_gamma is `{gsrc}`")
+        L.append(f"def dGammaTimeMajorG : Bool := {'true' if '.T.ravel()' in gsrc else 'false'}")
+        L.append("theorem dGammaTimeMajorG_eq : dGammaTimeMajorG = dGammaTimeMajor := rfl")
+        _, data, row, col, shape = block(D, "Z_D")
+        emit("dDRowG", P2, "List Nat", _dz_array(row, w), "dDRow")
+        emit("dDColG", P2, "List Nat", _dz_array(col, w), "dDCol")
+        emit("dDDataG", P2, "Nat × Int", _dz_const_data(data, w), "dDData")
+        emit("dDShapeG", P2, "Nat × Nat", _dz_shape(shape, w), "dDShape")
+        _, data, row, col, shape = block(D, "E")
+        emit("dERowG", P2, "List Nat", _dz_array(row, w), "dERow")
+        emit("dEColG", P2, "List Nat", _dz_array(col, w), "dECol")
+        emit("dEDataG", P2, "Nat × Int", _dz_const_data(data, w), "dEData")
+        emit("dEShapeG", P2, "Nat × Nat", _dz_shape(shape, w), "dEShape")
+        _, data, row, col, shape = block(D, "TA_fw_list")
+        emit("dTaFwRowG", P3, "List Nat", _dz_array(row, w), "dTaFwRow")
+        emit("dTaFwColG", P3, "List Nat", _dz_array(col, w), "dTaFwCol")
+        emit("dTaFwDataG", P3, "Nat × Int", _dz_const_data(data, w), "dTaFwData")
+        emit("dTaFwShapeG", P2, "Nat × Nat", _dz_shape(shape, w), "dTaShape")
+        _, data, row, col, shape = block(D, "TA_bw_list")
+        emit("dTaBwRowG", PB, "List Nat", _dz_array(row, w), "dTaBwRow")
+        emit("dTaBwColG", PB, "List Nat", _dz_array(col, w), "dTaBwCol")
+        emit("dTaBwDataG", PB, "Nat × Int", _dz_const_data(data, w), "dTaBwData")
+        emit("dTaBwShapeG", P2, "Nat × Nat", _dz_shape(shape, w), "dTaShape")
+        if len(D.ifs) != 1:
+            raise Untranslatable(f"{w}: {len(D.ifs)} splice rules found")
+        L.append(f"def dIx0G (xs : Array Rat) (s : Rat) : Nat :=\n{_dz_ix0(D.ifs[0], 'x_sec', w)}")
+        L.append("theorem dIx0G_eq (xs : Array Rat) (s : Rat) : dIx0G xs s = ix0Rule xs s := rfl")
+        # the caller: sizes passed, observation order, stacking with signs
+        s = "calibrate_double_ended_solver"
+        if s not in fns:
+            raise Untranslatable(f"{s} not found")
+        src = ast.unparse(fns[s]).replace("'", '"')
+        for piece in ("construct_submatrices(sections, nt, nx_sec, ds, trans_att, x_sec)", "nx_sec = x_sec.size", "nt = ds.time.size",
+                      'x_sec = ds_sec["x"].values', "ds_sec = ds.isel(x=ix_sec)",
+                      "y_F = np.log(ds_sec.st / ds_sec.ast).values.ravel()", "y_B = np.log(ds_sec.rst / ds_sec.rast).values.ravel()",
+                      "sp.hstack((Z_gamma, -Z_D, Zero_d, -E, Z_TA_fw))", "sp.hstack((Z_gamma, Zero_d, -Z_D, E, Z_TA_bw))",
+                      "y = np.concatenate((y_F, y_B))", "w = np.concatenate((w_F, w_B))"):
+            if piece not in src:
+                raise Untranslatable(f"{s}: `{piece}` is gone")
+        # the matching-section builder uses the same rule on the whole coordinate vector
+        m = "construct_submatrices_matching_sections"
+        if m not in fns:
+            raise Untranslatable(f"{m} not found")
+        chains = [n for n in ast.walk(fns[m]) if isinstance(n, ast.If)
+                  and any(isinstance(x, ast.Assign) and ast.unparse(x.targets[0]) == "ix_ta_ix0" for x in n.body)
+                  and "[-1]" in ast.unparse(n.test)]
+        if len(chains) != 1:
+            raise Untranslatable(f"{m}: {len(chains)} splice rules found")
+        text = ast.unparse(chains[0]).replace("ix_ta_ix0", "ix_sec_ta_ix0").replace("x.size", "nx")
+        chain = ast.parse(text).body[0]
+        L.append(f"def mIx0G (xs : Array Rat) (s : Rat) : Nat :=\n{_dz_ix0(chain, 'x', m)}")
+        L.append("theorem mIx0G_eq (xs : Array Rat) (s : Rat) : mIx0G xs s = ix0Rule xs s := rfl")
+        info["double"] = sorted(c[0] for c in D.coo)
+    L.append("\nend DtsVerif.GenDesign")
+    return "\n".join(L) + "\n", info
+
+
 # ================================================================================================ observations and weights
 def _strip(n):
     """drop `.values`, `.ravel()`, `.T` wrappers; returns (inner node, list of wrappers outermost first)"""
@@ -1261,8 +1586,9 @@ def translate_reduce(src_root):
 
 # which generated sections tie which property's model to the source (a broken section is reported only for these)
 SECTIONS = {
-    "C01": dict(formulas=(), extra=("obs-single",)),
-    "C02": dict(formulas=(), extra=("obs-double",)),
+    "C01": dict(formulas=(), extra=("obs-single", "design-single")),
+    "C02": dict(formulas=(), extra=("obs-double", "design-double")),
+    "C03": dict(formulas=(), extra=("design-single", "design-double")),
     "C04": dict(formulas=("temps",), extra=("layout",)),
     "C05": dict(formulas=("temps", "derivs", "terms"), extra=()),
     "C06": dict(formulas=("derivs", "terms", "weighted"), extra=()),
@@ -1291,6 +1617,10 @@ def translate_for(prop, src_root):
             text += translate_shift(src_root)
         elif e == "reduce":
             text += translate_reduce(src_root)
+        elif e in ("design-single", "design-double"):
+            t_, info = translate_design(src_root, which=(e.split("-")[1],))
+            text += t_
+            names = dict(names, **{("design_" + k): v for k, v in info.items()})
         elif e in ("obs-single", "obs-double"):
             t_, info = translate_obs(src_root, which=(e.split("-")[1],))
             text += t_
